@@ -111,3 +111,9 @@ impl<PacketIdType: IsPacketId> GenericStore<PacketIdType> {
         self.map.values().cloned().collect()
     }
 }
+
+#[cfg(all(feature = "verif-hooks", kani))]
+#[allow(dead_code, unused)]
+pub(crate) mod verif_harness {
+    include!(concat!(env!("VERIF_HARNESS_DIR"), "/store_h.rs"));
+}
